@@ -129,6 +129,7 @@ func main() {
 	observed, effective := 0, 0
 	if part("d") {
 		runConcurrentReaders(res)
+		runConcurrentSavers(res)
 		observed = runStraceObserved(res)
 		effective = runFaultInjection(res)
 	}
